@@ -119,11 +119,46 @@ class TseitinTransformation:
     def goal2intcnf(self, goal: z3.Goal) -> list[list[int]]:
         cnf = []
         for expr in goal:
-            if z3.is_or(expr):
-                cnf.append([self.expr_to_signed_id(x) for x in expr.children()])
-            else:
-                cnf.append([self.expr_to_signed_id(expr)])
+            literals = expr.children() if z3.is_or(expr) else [expr]
+            clause = []
+            satisfied = False
+            for literal in literals:
+                value = self.constant_value(literal)
+                if value is None:
+                    clause.append(self.expr_to_signed_id(literal))
+                elif value:
+                    satisfied = True
+            if satisfied:
+                continue
+            if not clause:
+                # constant-false clause, encoded as p and not p because RC2 does
+                # not accept an empty soft clause
+                false_id = self.expr_to_signed_id(z3.BoolVal(False))
+                cnf.append([false_id])
+                cnf.append([-false_id])
+                continue
+            cnf.append(clause)
         return cnf
+
+    """
+    Truth value of a (possibly negated) Boolean constant literal, None for any other literal.
+    The tseitin-cnf tactic leaves literals like Not(True) or False in its clauses; they must
+    not be given an ID as if they were variables.
+
+    Context:
+        Helper function called by goal2intcnf
+    """
+
+    def constant_value(self, expr: z3.ExprRef) -> bool | None:
+        positive = True
+        if z3.is_not(expr):
+            positive = False
+            expr = expr.children()[0]
+        if z3.is_true(expr):
+            return positive
+        if z3.is_false(expr):
+            return not positive
+        return None
 
     """
     Takes z3 expression and creates or retrieves unique ID of expression using pysat.formula.IDPool
